@@ -82,6 +82,8 @@ def array(name, kind, shape=None, ndim=None, finite=False, min_extent=0):
         return fn(())
     a = Arr(tuple((d,) for d in dims), fn, kind, label=name)
     a.fresh = False
+    a.meta["finite"] = finite
+    a.meta["param"] = True
     return a
 
 
